@@ -27,7 +27,7 @@ package rjson
 //@ func skipFloatExp(data, p, pe) (r, err)
 //@   ensures [C19,C20] ghost_alloc == old(ghost_alloc)
 //@   input data
-//@   sim value init=none
+//@   sim value limit=10000 init=none
 //@   requires 0 < p && p <= pe && pe == len(data)
 //@   requires @sim qis(Rq(data, p), "InValue.NumE@*")
 //@   ensures r >= p - 1 && r < pe
@@ -46,7 +46,7 @@ package rjson
 //@ func skipFloatDec(data, p, pe) (r, err)
 //@   ensures [C19,C20] ghost_alloc == old(ghost_alloc)
 //@   input data
-//@   sim value init=none
+//@   sim value limit=10000 init=none
 //@   requires 0 < p && p <= pe && pe == len(data)
 //@   requires @sim qis(Rq(data, p), "InValue.NumDot@*")
 //@   ensures r >= p - 1 && r < pe
@@ -242,7 +242,7 @@ package rjson
 //@ func SkipValue(data, buffer) (p, err)
 //@   input data
 //@   scratch buffer
-//@   sim value init=none
+//@   sim value limit=10000 init=none
 //@   assigns buffer.stackBuf
 //@   ensures @sim [C02,C08] err == nil ==> accepts(data) && p == endof(data)
 //@   ensures @sim [C02,C08] err != nil ==> !accepts(data)
@@ -251,7 +251,7 @@ package rjson
 //@ func SkipValueFast(data, buffer) (p, err)
 //@   input data
 //@   scratch buffer
-//@   sim value init=none
+//@   sim value limit=10000 init=none
 //@   ensures @sim [C11] accepts(data) ==> err == nil && p == endof(data)
 //@   assigns buffer.stackBuf
 //@   ensures err == nil ==> 0 <= p && p <= len(data)
@@ -281,7 +281,7 @@ package rjson
 //@ func Valid(data, buffer) (ok)
 //@   input data
 //@   scratch buffer
-//@   sim value init=none
+//@   sim value limit=10000 init=none
 //@   assigns buffer.stackBuf
 //@   ensures @sim [C01] ok <==> accepts(data) && wsrun(data, endof(data)) == len(data)
 // ---------------------------------------------------------------- token.go
